@@ -1232,9 +1232,85 @@ class Canonicaliser:
                 ast.fix_missing_locations(tree)
         self.stats["conversion_wrapper_calls"] = n[0]
 
+    def inline_enum_member_methods(self):
+        """`Enum.MEMBER.method(args)` of an Enum class of the package whose method is straight-line (single-assignment
+        locals, one return) and reads of itself only `self.value` / `self.name`: the call reads as the returned expression,
+        with the member's constant in place of self.value (and `getattr(math, "floor")(x)` folded to math.floor(x))"""
+        from .astutil import straightline_value, fold_static
+        pm = self.pm
+        enums = {}
+        for m, (rel, tree, _) in pm.modules.items():
+            for c in tree.body:
+                if isinstance(c, ast.ClassDef) and any(norm_name(b).split(".")[-1] in ("Enum", "IntEnum", "StrEnum")
+                                                       for b in c.bases if isinstance(b, (ast.Name, ast.Attribute))):
+                    members = {st.targets[0].id: st.value for st in c.body
+                               if isinstance(st, ast.Assign) and len(st.targets) == 1 and isinstance(st.targets[0], ast.Name)
+                               and isinstance(st.value, ast.Constant)}
+                    meths = {}
+                    for f in c.body:
+                        if isinstance(f, ast.FunctionDef) and not f.decorator_list and f.args.args:
+                            sn = f.args.args[0].arg
+                            ok = True
+                            for x in ast.walk(f):
+                                if isinstance(x, ast.Name) and x.id == sn:
+                                    par_ok = False
+                                    for y in ast.walk(f):
+                                        if isinstance(y, ast.Attribute) and y.value is x and y.attr in ("value", "name"):
+                                            par_ok = True
+                                    ok = ok and par_ok
+                            if ok:
+                                meths[f.name] = f
+                    if members and meths:
+                        enums[c.name] = (members, meths)
+        if not enums:
+            return
+        n = [0]
+
+        class W(ast.NodeTransformer):
+            def visit_Call(self, node):
+                self.generic_visit(node)
+                f = node.func
+                if isinstance(f, ast.Attribute) and isinstance(f.value, ast.Attribute) and isinstance(f.value.value, ast.Name) \
+                        and f.value.value.id in enums:
+                    members, meths = enums[f.value.value.id]
+                    if f.value.attr in members and f.attr in meths:
+                        h = meths[f.attr]
+                        sn = h.args.args[0].arg
+
+                        class S(ast.NodeTransformer):
+                            def visit_Attribute(self, a):
+                                self.generic_visit(a)
+                                if isinstance(a.value, ast.Name) and a.value.id == sn:
+                                    return ast.Constant(value=members[f.value.attr].value if a.attr == "value" else f.value.attr)
+                                return a
+                        # (the member's constants first: the arguments may well mention the caller's own `self`)
+                        h = S().visit(clone(h))
+                        fake = ast.Call(func=ast.Name(id=h.name, ctx=ast.Load()), args=node.args, keywords=node.keywords)
+                        v = straightline_value(fake, None, lambda nm: h if nm == h.name else None)
+                        if v is None:
+                            return node
+                        v = clone(v)
+                        wrap = ast.Expr(value=v)
+                        wrap = fold_static(ast.Module(body=[wrap], type_ignores=[])).body[0]
+                        n[0] += 1
+                        out = ast.copy_location(wrap.value, node)
+                        for x in ast.walk(out):
+                            ast.copy_location(x, node)
+                        return out
+                return node
+        for m, (rel, tree, _) in pm.modules.items():
+            src_has = any(isinstance(x, ast.Name) and x.id in enums for x in ast.walk(tree))
+            if src_has:
+                for st in tree.body:
+                    if not (isinstance(st, ast.ClassDef) and st.name in enums):
+                        W().visit(st)
+                ast.fix_missing_locations(tree)
+        self.stats["enum_member_calls"] = n[0]
+
     def run(self):
         pm = self.pm
         self.inline_conversion_wrappers()
+        self.inline_enum_member_methods()
         self.apply_decorators()
         self.apply_context_managers()
         for m, (rel, tree, _) in pm.modules.items():
